@@ -202,6 +202,10 @@ def r10_2(ctx, rc):
     # ... and the exception that propagates is the same object
     from .c02 import r2_2
     r2_2(ctx, rc)
+    # a failure during set-up (before the claim) releases the directory
+    # reservation exactly once as well
+    from .c14 import r14_1
+    r14_1(ctx, rc, only=('_build_file',))
 
 
 def r10_3(ctx, rc):
